@@ -246,8 +246,8 @@ func maxFor(e *elem, dflt int) int {
 
 var patterns = [][]byte{[]byte("0123456789"), {0}, {0xff, 0xfe}, []byte("abc\n"), []byte("true"), []byte(" ,:;|"), {0x80, 0x00, 0x0a, 0x25, 0x7b, 0x7d}}
 
-// genBytes draws content of at most maxLen bytes. big enables the rare multi-kilobyte
-// classes (bufio refills, the reader's 64 KiB chunking).
+// genBytes draws content of at most maxLen bytes; the rare multi-kilobyte classes cross
+// bufio refills and the reader's 64 KiB chunking (big makes the 64 KiB class 4x as likely).
 func genBytes(t *rapid.T, label string, maxLen int, big bool) []byte {
 	cls := rapid.IntRange(0, 99).Draw(t, label+"_class")
 	var n int
@@ -265,7 +265,7 @@ func genBytes(t *rapid.T, label string, maxLen int, big bool) []byte {
 		n = rapid.SampledFrom([]int{14, 15, 16, 17, 254, 255, 256, 257}).Draw(t, label+"_len")
 	case cls < 97:
 		n = rapid.IntRange(41, 300).Draw(t, label+"_len")
-	case cls < 99 || !big:
+	case cls < 99 || (!big && rapid.IntRange(0, 3).Draw(t, label+"_quickbig") != 0):
 		n = rapid.IntRange(4000, 5000).Draw(t, label+"_len")
 	default:
 		n = rapid.SampledFrom([]int{65535, 65536, 65537, 70001}).Draw(t, label+"_len")
